@@ -30,6 +30,10 @@ COMBOS = [  # documented illegal combinations and values (all must be diagnostic
     # a type takes ONE template argument (documented restriction): a list is rejected, not silently truncated
     "int vector_sum(const std::vector<int,double> &arg)", "void f(std::vector<int,int> name)", "std::vector<int,long> f()",
     "void f(std::vector<int, > a)", "void f(std::vector<,int> a)",
+    # the functions of an implied expression: wrong number of arguments (none, too many), not a function call, unknown function
+    "void f(int *a +rank(1), int n +implied(size()))", "void f(int *a +rank(1), int n +implied(size(a,1,2)))",
+    "void f(char *a, int n +implied(len_trim()))", "void f(char *a, int n +implied(len(a,1)))", "void f(int *a +rank(1), int n +implied(size(,)))",
+    "void f(int *a +rank(1), int n +implied(size(a)(1)))",
     "void f(int *a +rank=1e999)", "void f(int *a, int n +implied(size(3)))", "void f(int *a, int n +implied(size(a+1)))",
     "void f(int *a, int n +implied(size(a) 7))", "{", "void f(int a) {", "} f()", "\"{}\" f()", "MyInt::x f()", "ns f()", "std f()", "void f(std x)",
 ]
